@@ -115,14 +115,15 @@ func checkSessionIDRange(c *Ctx, r *Report) {
 		return
 	}
 	n := 0
-	allInstrs(fn, func(in ssa.Instruction) {
-		call, ok := in.(*ssa.Call)
+	// the parsing may have been moved into an unexported helper of the package
+	for _, ci := range callInstrsDeep(fn, 2) {
+		call, ok := ci.(*ssa.Call)
 		if !ok {
-			return
+			continue
 		}
 		o := CalleeObj(call)
 		if o == nil || o.Pkg() == nil || o.Pkg().Path() != "strconv" {
-			return
+			continue
 		}
 		construct := "session-id conversion in " + shortFn(fn)
 		switch o.Name() {
@@ -145,7 +146,7 @@ func checkSessionIDRange(c *Ctx, r *Report) {
 				r.OK(rule, construct, c.Pos(call.Pos()), fmt.Sprintf("strconv.%s(_, %d, %d) covers [0, 2^32)", o.Name(), base, bits))
 			}
 		}
-	})
+	}
 	if n == 0 {
 		r.Unk(rule, "session-id conversion", c.Pos(fn.Pos()), "no strconv conversion found in processServerCapabilities")
 	}
